@@ -527,6 +527,14 @@ class Exec:
             return self.operand(st, fn, o)
         if r == 'ref':
             p = rv['p']
+            if not rv['mut'] and p['p'] == ['*']:
+                # `&*x` with x: &T is a copy of the shared reference x (MIR reborrows instead of copying)
+                try:
+                    lt = self.facts.ty(getattr(self, '_cur_body', {})['locals'][p['l']])
+                    if lt.get('k') == 'ref' and not lt.get('mut'):
+                        return self.local(st, fn, p['l'])
+                except (KeyError, IndexError, TypeError):
+                    pass
             v = self.place(st, fn, p)
             if rv['mut'] and dest_local is not None:
                 root = p['l']
@@ -623,6 +631,7 @@ class Exec:
                 if s['s'] == 'assign':
                     p = s['p']
                     dl = p['l'] if not p['p'] else None
+                    self._cur_body = body
                     v = self.rvalue(st, fn, s['rv'], dl)
                     if dl is not None:
                         st.env[dl] = v
